@@ -232,6 +232,7 @@ def run_check(tier, seed):
     run.cov['search_out_of_order'] = n_ooo
     run.cov['search_cut_use_close'] = cut_use_close_family(run, r, 6 if tier == 'quick' else 60)
     run.cov['search_snapshot_sessions'] = snapshot_session_family(run, r, 10 if tier == 'quick' else 120)
+    run.cov['search_repeated_antecedents'] = repeated_antecedent_family(run, r)
     run.sample(dict(theorem='%s.%s' % thms[0][:1] + (thms[0][1]['name'],) if False else thms[0][1]['name'], steps=thms[0][1]['steps'][:2]))
     run.cov['rule'] = ('structural ops on random well-numbered proofs (3-6 lines, nested blocks); replay of the recorded steps of library '
                        'theorems (%s) with invariants after every step, each step first on a copy, 30%% repeated; non-trivial = every case'
@@ -322,6 +323,50 @@ def out_of_order_family(run, r, n_goals):
                         # the shared structure has been damaged: restart from a clean replay is not needed, the verdict stands
                         return stats
                     check_state(run, keep, goal, name, 'copy kept aside while %s was applied at %s' % (edit['method_name'], gid))
+    return stats
+
+
+def repeated_antecedent_family(run, r):
+    """Goals whose antecedents repeat (literally, or up to the names of bound variables), alone and beside other antecedents:
+    the initial state must already be a checkable partial proof of the *stated* goal (one assumption line per antecedent,
+    the closing line concluding the goal as stated), and stay one when the open goal is closed or edited."""
+    from kernel.type import BoolType, TFun, TVar
+    stats = dict(goals=0, steps=0)
+    texts = ['A --> A --> A', 'A --> A --> B --> A', 'A --> (A --> B) --> A --> B', 'A --> B --> A --> B --> A & B',
+             '(A --> B) --> (A --> B) --> A --> B', 'A & B --> A & B --> A', '(!x::\'a. P x) --> (!y::\'a. P y) --> P a',
+             '(!x::\'a. P x) --> A --> (!x::\'a. P x) --> A', '~A --> ~A --> ~A', 'A --> B --> B --> A --> C --> A',
+             '(?x::\'a. P x) --> (?y::\'a. P y) --> (?z::\'a. P z)', '!u::\'a. P u --> P u --> P u']
+    for text in texts:
+        name = 'generated.%s' % text
+        try:
+            Ta = TVar('a')
+            context.set_context('logic_base', vars=dict([(a_, BoolType) for a_ in 'ABCD'] + [('P', TFun(Ta, BoolType)), ('a', Ta)]))
+            goal_t = parser.parse_term(text)
+            state = server.parse_init_state(goal_t)
+            goal = Thm(goal_t)
+        except RecursionError:
+            raise
+        except Exception as e:
+            run.stat('rep_setup_exc:' + type(e).__name__)
+            continue
+        stats['goals'] += 1
+        run.count(('rep', text), nontrivial=True)
+        check_state(run, state, goal, name, 'parse_init_state (repeated antecedents)')
+        gaps = [it.id for it in state.prf.items if it.rule == 'sorry']
+        for gid in gaps[:1]:
+            for step in ({'method_name': 'cut', 'goal_id': str(gid), 'goal': 'D --> D'},
+                         {'method_name': 'introduction', 'goal_id': str(gid), 'names': ''},
+                         {'method_name': 'apply_prev', 'goal_id': str(gid), 'fact_ids': ['0']}):
+                work = copy.copy(state)
+                try:
+                    method.apply_method(work, step)
+                except RecursionError:
+                    raise
+                except Exception as e:
+                    run.stat('rep_step_rejected:%s:%s' % (step['method_name'], type(e).__name__))
+                    continue
+                stats['steps'] += 1
+                check_state(run, work, goal, name, '%s at %s (repeated antecedents)' % (step['method_name'], gid))
     return stats
 
 
